@@ -120,6 +120,20 @@ CLAIMED = {
   "text": "After every C call the returned handle's validity and table are compared with the Rust twin, the reference count of every stored node and of the manager must match exactly the handles the harness owns under the documented ownership rules, and at the end of every sequence unref+gc leaves no node.",
   "note": "C API compiled unchanged as rlib through a shim package; manager strong count read from the Arc header (offset calibrated per manager); failing-allocation variant not enumerated (INVALID injected instead)",
   "ref": "3/C19"
+ },
+ "C14": {
+  "level": "fault_enumeration",
+  "technique": "exhaustive fault enumeration on the real code: for each of ~45 scripted operations a fresh manager for every inner-node (resp. terminal) capacity from 0 to 'everything fits', so every allocation point is the failing one in one run; model result oracle + structural/ref-count audit + retry after drop+gc; process-isolated groups for the operations that abort by design",
+  "text": "Every capacity value in the sweep is executed; the outcome must be the model's result or OutOfMemory with an intact manager (exact reference counts, unchanged handles, gc exactness), after freeing the ballast the operation must succeed; aborts inside set_var_order/ZBDD add_vars are matched as open known findings (API cannot report an error).",
+  "note": "index backend (the pointer backend has no capacity); multi-threaded runs are free-running; 4-variable operands",
+  "ref": "3/C14"
+ },
+ "C07": {
+  "level": "model_checking",
+  "technique": "stateless exploration of ALL thread schedules of the real manager up to a preemption bound (cooperative scheduler over cfg(oxidd_verif) hooks at every lock / try-lock / gc phase / handle clone+drop / fork-join; blocking acquisitions carry a readiness predicate so deadlock is detected), 10 collision-forcing scripts x 3 kinds, fresh manager per schedule; sequential-result + model + audit oracle",
+  "text": "Every schedule with at most 2 preemptions (3 in the thorough tier for the two-thread scripts) of each script is executed on the real code; in every execution all results must denote the model's functions and equal the sequentially recomputed handles, no thread may panic or deadlock, and the final structural/reference-count audit and teardown must hold.",
+  "note": "sequentially consistent interleavings at the instrumented points only (no weak-memory effects); background-GC condvar wake-up and rayon work stealing replaced by equivalent controlled forks; pointer backend not instrumented",
+  "ref": "3/C07"
  }
 }
 PENDING = {}
